@@ -40,6 +40,7 @@ def tasks(tier):
             ts.append({"kind": kind, "op": op})
     for op in ("add", "sub", "mul", "div", "neg"):
         ts.append({"kind": "double", "op": op})
+    ts += [{"kind": kind, "negspell": True} for kind in ("int", "uint")]
     if tier == "thorough":
         for kind in ("int", "uint"):
             for op1 in OPS:
@@ -61,6 +62,8 @@ def run_task(task, kf):
             for runner in common.RUNNERS:
                 out.append(explore.explore(_chain_harness(task["kind"], task["chain"], op2, runner), kf))
         return out
+    if task.get("negspell"):
+        return [explore.explore(_neg_spelling_harness(task["kind"], runner), kf) for runner in common.RUNNERS]
     first = True
     for route in _routes(task["op"]):
         if task["kind"] == "double":
@@ -124,6 +127,45 @@ def _int_harness(kind, op, route):
         return {"check": "c01.int_binop", "args": enc({"kind": kind, "op": op, "route": route, "a": vals["a"], "b": vals.get("b", 0)})}
 
     return Harness(id=f"C01/{kind}/{op}@{route}", vars=vars, pre=pre, run=run, witness=witness)
+
+
+NEG_SPELLINGS = [("--a", 2), ("- -a", 2), ("-(-a)", 2), ("---a", 3), ("-(-(-a))", 3), ("- - - -a", 4), ("0 - -a", "0--"), ("-a - -a", "zero")]
+
+
+def _neg_spelling_harness(kind, runner):
+    """repeated unary minus in every spelling: each application is range-checked (int: -MIN overflows; uint: always an error)"""
+    celpy, ct, ev = common.mods()
+    cls = ct.IntType if kind == "int" else ct.UintType
+    lo, hi = (MIN64, MAX64) if kind == "int" else (0, MAXU64)
+    A = z3.Int("a")
+    progs = [(src, n, common.make_program(src, runner)) for src, n in NEG_SPELLINGS]
+
+    def spec(n):
+        if kind == "uint":
+            return z3.BoolVal(True), None
+        if n == "0--":      # 0 - (-a): -a overflows for MIN, then 0 - (-a) = a
+            return A == MIN64, A
+        if n == "zero":     # (-a) - (-a)
+            return A == MIN64, z3.IntVal(0)
+        return A == MIN64, (A if n % 2 == 0 else -A)
+
+    def run(vals):
+        a = cls(mk(SInt, A, vals["a"]))
+        obs = []
+        for src, n, prog in progs:
+            err, val = spec(n)
+            kd, r = common.outcome(lambda: prog.evaluate({"a": a}))
+            if kd == "error":
+                obs.append(Ob(f"C01/{kind}/neg-spelling/error@{runner}", err, note=src))
+            elif kd == "value":
+                obs.append(Ob(f"C01/{kind}/neg-spelling/value@{runner}", z3.And(z3.Not(err), tm(r) == val) if val is not None else z3.BoolVal(False), note=f"`{src}` gave {r!r}"[:80]))
+            else:
+                obs.append(Ob(f"C01/{kind}/neg-spelling/escape@{runner}", z3.BoolVal(False), note=f"`{src}`: {r!r}"[:100]))
+        return obs
+
+    def witness(vals):
+        return {"check": "c01.neg_spellings", "args": enc({"kind": kind, "runner": runner, "a": vals["a"]})}
+    return Harness(id=f"C01/{kind}/neg-spellings@{runner}", vars={"a": A}, pre=[A >= lo, A <= hi], run=run, witness=witness)
 
 
 def _chain_harness(kind, op1, op2, runner):
